@@ -43,6 +43,9 @@ checks = {
  "C16": dict(cat="other", tech="bounded symbolic execution of the real Garbler/Evaluator session behind a transport that xors symbolic masks into the evaluator->garbler bytes + SMT (z3)",
     text="Every byte of the evaluator->garbler direction (OT wire range, returned output labels) is corrupted by an arbitrary symbolic mask; the garbler must error, or return the correct outputs, or the mask equals the secret R. Whole-circuit mode, small circuits plus 8- and 66-bit outputs. The garbler->evaluator direction is outside the claim (needs AES unpredictability).",
     ref="DESIGN.md C16", engine="gosymx"),
+ "C10": dict(cat="other", tech="bounded symbolic co-execution of the real GMW parties (go/ssa) over real p2p pipes + GF(2) polynomial normal form and SMT (z3); PRG uninterpreted, ideal base OT",
+    text="Two assume/guarantee halves joined at the TriplePool. Offline: the real tripleBatch at 2 and 3 parties (thorough: up to 5) over the real IKNP bit-COT, every random share, Delta, base key and PRG byte symbolic; (xor a)&(xor b) = xor c is an obligation for all 64 bits of every dealt word. Online: the real Network.Run at 2-3 parties (thorough: up to 5) for every circuit of a small family (arbitrary ops from XOR/XNOR/AND/INV, up to 3 AND levels, a 70-gate level spanning two words), all inputs, all input-share randomness and all valid triple values symbolic; every party's result must equal Circuit.Compute. Connection establishment (TCP) and the 4096/8192 batch loop are outside the claim.",
+    ref="DESIGN.md C10", engine="gosymx"),
  "C07": dict(cat="translation_validation", tech="SMT miter (z3) of the real builders' gate lists against bit-vector reference semantics, all operand values",
     text="Each real builder invocation (operator x operand widths x result width x target x algorithm) is compiled by the real circuits.Compiler and its output is proved equal to the exact function mod 2^wz for ALL operand values by z3 (per-output-bit incremental miter); the width/configuration quantifier is an enumerated, stated family. Counterexamples are replayed through the real Circuit.Compute.",
     ref="DESIGN.md C07", engine="circtv", script="python3-vt",
@@ -64,7 +67,7 @@ m = {
            "baseline_off_cmd": BASE, "source_commits": [], "add_only": True},
  "engines": [
   {"name": "gosymx", "path": "engine/gosymx", "serves_properties": sorted(k for k, v in checks.items() if v["engine"] == "gosymx"),
-   "kind_free_text": "symbolic executor for Go SSA (fork of x/tools go/ssa/interp): symbolic scalars as bit-vector terms, re-execution DFS, predicated region merging, symbolic pointers, uninterpreted functions; z3 decides every branch feasibility and assertion"},
+   "kind_free_text": "symbolic executor for Go SSA (fork of x/tools go/ssa/interp): symbolic scalars as bit-vector terms, re-execution DFS, predicated region merging, symbolic pointers, uninterpreted functions; z3 decides every branch feasibility and every assertion the rewriting simplifier / GF(2) normal-form procedure does not already reduce to true"},
   {"name": "circtv", "path": "engine/circtv", "serves_properties": sorted(k for k, v in checks.items() if v["engine"] == "circtv"),
    "kind_free_text": "solver-based translation validation: the real compiler/builders run natively, the emitted circuit is turned gate by gate into a bit-vector formula with symbolic inputs and mitered against a reference term in z3"},
  ],
